@@ -6,6 +6,7 @@ SD=$(readlink -f "$1"); PROP=$2; ONLY=${3:-}
 ID=$(basename "$SD"); WT=/tmp/seedrun-$ID-$PROP
 git -C /repo worktree remove --force "$WT" >/dev/null 2>&1
 git -C /repo worktree add -q --detach "$WT" HEAD || exit 9
+cp /repo/Cargo.lock "$WT/Cargo.lock" 2>/dev/null   # Cargo.lock is git-ignored in /repo but present in its working tree
 if ! git -C "$WT" apply "$SD/patch.diff"; then echo "$ID $PROP: PATCH DOES NOT APPLY"; git -C /repo worktree remove --force "$WT"; exit 8; fi
 cd /verif
 if [ -n "$ONLY" ]; then VERIF_REPO=$WT ./check "$PROP" --only "$ONLY" --no-evidence > "$SD/check-$PROP.log" 2>&1; else VERIF_REPO=$WT ./check "$PROP" --no-evidence > "$SD/check-$PROP.log" 2>&1; fi
